@@ -765,6 +765,8 @@ class Interp:
         if cur[0] == "list":
             if name.split("::")[-1] in ("sort_by_key", "sort_by", "sort", "sort_unstable_by_key"):
                 key = self.closure_key(arg) if arg[0] == "closure" else ("?",)
+                if key[0] == "key":
+                    key = key + (name.split("::")[-1],)      # the sorting method (stable or not) is part of the schedule's meaning
                 env[vid] = ("list", [("perm", key, cur[1])])
                 return Leaf("fall", UNIT, env)
             if not name.endswith("::push"):
